@@ -544,6 +544,11 @@ class SOpaque(Sym):
     def truth(self, ctx):
         return True
 
+    def binop(self, ctx, op, other, reflected):
+        if self.label == 'str' and op in ('+', '%') and (isinstance(other, str) or (isinstance(other, SOpaque) and other.label == 'str')):
+            return SOpaque('str')  # message construction is opaque (DESIGN 3)
+        return NotImplemented
+
     def havoc(self, ctx, name):
         return SOpaque(name, attrs=self.attrs, methods=self.methods)
 
